@@ -260,7 +260,11 @@ func (v *FnVC) applyContract(ins ssa.Instruction, contract *FuncContract, name s
 	}
 	g := v.reach[v.curBlock]
 	for _, c := range contract.Ensures {
-		v.assume(g, v.evalBool(c.E, penv))
+		f, ok := v.tryEvalBool(c.E, penv)
+		if !ok {
+			continue // the clause mentions a local of the callee: not expressible at the call site (weaker assumption)
+		}
+		v.assume(g, f)
 	}
 	// type invariants of results are assumed (the callee establishes them)
 	for _, r := range results {
@@ -733,7 +737,7 @@ func (v *FnVC) encodeBuiltin(ins ssa.Instruction, b *ssa.Builtin, c *ssa.CallCom
 		if v.nopanic {
 			v.oblige("nopanic-explicit", "false", "explicit panic is unreachable", ins.Pos())
 		}
-		v.assume(v.reach[v.curBlock], "false")
+		v.narrow("false")
 	case "recover":
 		if res != nil {
 			v.vals[res] = v.havocVal("recovered", res.Type())
@@ -878,6 +882,11 @@ func (v *FnVC) atExit() {
 	}
 	pos := v.Fn.Pos()
 	for k, c := range v.C.Ensures {
+		if c.Kind == "defines" {
+			// names the function's result by uninterpreted spec functions: assumed at call sites (purity assumption), nothing to check here
+			v.assumedCallees[fmt.Sprintf("%s is a pure function of its arguments (defines: %s)", v.fnName(), c.Text)] = true
+			continue
+		}
 		f := v.evalBool(c.E, env)
 		o := v.oblige("ensures", f, c.Text, pos)
 		o.Name = fmt.Sprintf("%s/ensures#%d", v.fnName(), k)
@@ -1152,4 +1161,18 @@ func (v *FnVC) callOrdinal(ins ssa.Instruction, name string) int {
 		}
 	}
 	return -1
+}
+
+// tryEvalBool evaluates a clause; ok=false when it refers to an identifier that is not in scope here.
+func (v *FnVC) tryEvalBool(e Expr, env *Env) (f string, ok bool) {
+	defer func() {
+		if r := recover(); r != nil {
+			if ve, isVE := r.(vcError); isVE && strings.Contains(string(ve), "unknown identifier") {
+				ok = false
+				return
+			}
+			panic(r)
+		}
+	}()
+	return v.evalBool(e, env), true
 }
